@@ -77,8 +77,16 @@ func drawFrame1(t *rapid.T, label string, genuine *[]*mocrelay.Event) frame {
 	evDoc := func(e *mocrelay.Event) gen.JArr {
 		return gen.JArr{gen.JStr("EVENT"), gen.WireEventDoc(t, e, label+"doc.")}
 	}
-	k := rapid.IntRange(0, 23).Draw(t, label+"class")
+	k := rapid.IntRange(0, 24).Draw(t, label+"class")
 	switch {
+	case k == 24: // a genuine event signed over U+FFFD, sent with an invalid byte in its place
+		e := gen.WireEvent(t, label+"fffd.", false)
+		e.Content += "\ufffd" + rapid.SampledFrom([]string{"", "tail", "\ufffd"}).Draw(t, label+"fffdtail")
+		gen.Sign(e, gen.Keys[rapid.IntRange(0, gen.NKeys-1).Draw(t, label+"fffdkey")])
+		text := gen.Render(gen.JArr{gen.JStr("EVENT"), gen.WireEventDoc(t, e, label+"fffddoc.")}, nil)
+		bad := rapid.SampledFrom([]string{"\xff", "\xc3", "\xc0\xaf", "\xed\xa0\x80"}).Draw(t, label+"fffdbad")
+		text = strings.Replace(text, "\xef\xbf\xbd", bad, 1)
+		return frame{Class: "forged:utf8-substitution", Text: text, evID: e.ID}
 	case k == 22: // a valid message padded with insignificant whitespace up to the size limit
 		m := gen.WireClientMsg(t, rapid.SampledFrom([]string{"CLOSE", "REQ"}).Draw(t, label+"nearlabel"), false)
 		if strings.HasPrefix(m.SubID, sentinelPrefix) {
@@ -338,6 +346,30 @@ func c12Case(t *rapid.T, col *ev.Collector, longLived bool) {
 		var allFrames [][]frame
 		nontrivial := false
 		for ci := 0; ci < nconn; ci++ {
+			if longLived && rapid.IntRange(0, 3).Draw(t, fmt.Sprintf("c%d.abrupt", ci)) == 0 {
+				// a client that fires a few EVENTs and hangs up at once: the session ends while its
+				// events are being checked; what the relay does with them is not judged, but the
+				// connections after it must be served as if it had never been there
+				ac, err := dial(rig.url)
+				if err != nil {
+					t.Fatalf("dial: %v", err)
+				}
+				for j, na := 0, rapid.IntRange(1, 6).Draw(t, fmt.Sprintf("c%d.abruptn", ci)); j < na; j++ {
+					x := gen.WireEvent(t, fmt.Sprintf("c%d.ab%d.", ci, j), true)
+					if rapid.Bool().Draw(t, fmt.Sprintf("c%d.ab%d.forged", ci, j)) {
+						x.Content += "!"
+					}
+					ac.Write(context.Background(), websocket.MessageText, []byte(gen.Render(gen.JArr{gen.JStr("EVENT"), gen.WireEventDoc(t, x, fmt.Sprintf("c%d.ab%d.doc.", ci, j))}, nil)))
+				}
+				ac.CloseNow()
+				select {
+				case <-h.ends:
+				case <-time.After(waitLong):
+					hx.Fail(t, ev.Failure{Property: "C12", Signature: "connection-lost", Clause: "a session ends when its client hangs up", Case: map[string]any{"connection": ci, "kind": "abrupt"}, Observed: "session did not end"})
+				}
+				h.take()
+				col.Label("connection:abrupt")
+			}
 			c, err := dial(rig.url)
 			if err != nil {
 				t.Fatalf("dial: %v", err)
@@ -505,6 +537,11 @@ func c12Case(t *rapid.T, col *ev.Collector, longLived bool) {
 			}
 			col.Add("output_messages", int64(nout))
 			c.Close(websocket.StatusNormalClosure, "")
+			select { // the session is over before the next connection starts
+			case <-h.ends:
+			case <-time.After(waitLong):
+				hx.Fail(t, ev.Failure{Property: "C12", Signature: "connection-lost", Clause: "a session ends when its client closes the connection", Case: map[string]any{"connection": ci}, Observed: "session did not end"})
+			}
 		}
 		col.Case(nontrivial, hx.JSON(allFrames), func() any { return allFrames })
 	}
